@@ -221,6 +221,9 @@ def fresh_of_type(ty, hint, taint=False):
         return BoolV(z3.Bool(f"{hint}!{n}"), taint)
     if ty.startswith("(") and ty.endswith(")") and ty != "()":
         return Tup([fresh_of_type(t, hint, taint) for t in split_top(ty[1:-1])])
+    if ty.startswith("&") and not ty.startswith("&[") and "dyn " not in ty and "str" != ty.lstrip("&' a-z_").strip():
+        # an unknown reference: a fresh object, so that repeated reads of its fields agree
+        return Ref(("fresh", hint.split("!")[0][:24], n), (), mutable=ty.startswith("&mut") or " mut " in ty[:12])
     return Opaque(hint + ":" + ty)
 
 
